@@ -169,6 +169,9 @@ pub struct ExecOpts {
     /// the schedule bytes are reused cyclically (long concurrent churn runs)
     #[serde(default)]
     pub cyclic_schedule: bool,
+    /// (managed thread id, k): suspend that thread for good at its k-th scheduling point
+    #[serde(default)]
+    pub freeze: Option<(usize, u64)>,
 }
 
 fn default_probe_bound() -> u64 {
@@ -190,6 +193,7 @@ impl Default for ExecOpts {
             unwind_end: 0,
             try_quiet: false,
             cyclic_schedule: false,
+            freeze: None,
         }
     }
 }
@@ -1697,6 +1701,7 @@ fn run_scenario_inner(sc: &Scenario) -> Execution {
         weak_cas_fail: sc.opts.weak_cas,
         quarantine: sc.opts.quarantine,
         cyclic: sc.opts.cyclic_schedule,
+        freeze: sc.opts.freeze,
         // only where C18 is stated: plain handles on a busy or yielding queue
         try_quiet_bound: if sc.opts.try_quiet
             && !sc.q.futures
